@@ -276,8 +276,9 @@ class Round:
                         continue
                     ds = [d for p in j["pkgs"] for d in diags.get((k, p), [])]
                     rec["verdicts"]["compile"] = "fail" if (ds or rt) else "ok"
+                    fw = g.field_words(j["shape"]) if "identifiers" in j["shape"]["constructs"] else ()
                     for f, line, msg in ds:
-                        rec["diags"].append(("compile", g.norm_diag(msg, names, types), "%s: %s" % (f, msg), "package"))
+                        rec["diags"].append(("compile", g.norm_diag(g.blank_fields(msg, fw), names, types), "%s: %s" % (f, msg), "package"))
                     for f, line, msg in rt:
                         rec["diags"].append(("compile", g.norm_diag(msg, names, types), "%s: %s" % (f, msg), "runtime"))
         self.timing["go_build_s"] = round(time.time() - t0, 2)
@@ -306,9 +307,10 @@ class Round:
                     rec["verdicts"]["compile"] = rec["verdicts"]["import"] = "ok"
                     seen = set()
                     for scope, items in (("package", [x for p in j["pkgs"] for x in per_pkg.get(p, [])]), ("runtime", runtime)):
+                        fw = g.field_words(j["shape"]) if "identifiers" in j["shape"]["constructs"] else ()
                         for clause, msg, f in items:
                             rec["verdicts"][clause] = "fail"
-                            cls = g.norm_diag(msg, names, types)
+                            cls = g.norm_diag(g.blank_fields(msg, fw), names, types)
                             if (clause, cls) not in seen:
                                 seen.add((clause, cls))
                                 rec["diags"].append((clause, cls, "%s: %s" % (f, msg), scope))
@@ -338,8 +340,9 @@ class Round:
                     ds = firsts
                     seen = set()
                     for scope, items in (("package", ds), ("runtime", rt)):
+                        fw = g.field_words(j["shape"]) if "identifiers" in j["shape"]["constructs"] else ()
                         for f, msg in items:
-                            cls = g.norm_diag(msg, names, types)
+                            cls = g.norm_diag(g.blank_fields(msg, fw), names, types)
                             if cls not in seen:
                                 seen.add(cls)
                                 rec["diags"].append(("compile", cls, "%s: %s" % (f, msg), scope))
@@ -458,6 +461,9 @@ def run(ctx):
             if quick:
                 start = (n * per_unit[lang] + ctx.seed) % len(rows)
                 chosen = [rows[(start + i) % len(rows)] for i in range(min(per_unit[lang], len(rows)))]
+                # the anchor row (every output kind and every generation flag on) is run for every unit in every seed
+                if rows[0] not in chosen:
+                    chosen = [rows[0]] + chosen[:-1]
             else:
                 chosen = rows
             for c in chosen:
